@@ -100,6 +100,10 @@ def fixed_corpus():
     add(D([A3, B2, within('G', ['A', 'B'], preds=(('table', [['a0', 'b0'], ['a1', 'b1']]), 'else'))],
           cross('ABG', 'AB', [['AtMostKInARow', 1, 'G', 'g0']])))
     add(D([A2, B2, CONG, transition('Q', 'G')], cross('ABGQ', 'AB', [['AtMostKInARow', 2, 'Q', 'q0']])))
+    # implied window factors with an early explicit start (the missing earlier trials are None)
+    add(D([A2, B2, window('W', 'A', 2, start=0)], cross('ABW', 'AB')))
+    add(D([A2, B2, window('W', 'B', 3, start=1)], cross('ABW', 'AB')))
+    add(D([A2, B2, CW, window('W', 'C', 2, start=0)], cross('ABCW', 'AB')))
     # derived factors over an UNCROSSED source (a change of the source invalidates only the derived column)
     add(D([A2, B2, C2, window('W', 'C', 2, start=0, preds=(('first', 'c0'), 'else'))], cross('ABCW', 'AB')))
     add(D([A2, B2, C2, window('W', 'C', 3, start=1, preds=(('first', 'c0'), 'else'))], cross('ABCW', 'AB')))
